@@ -1,4 +1,5 @@
 import H2V.Lemmas.ConnCtlPTrace
+import H2V.Lemmas.ConnCtlPErrKind
 /-
   ConnCtlP, part 2 — C14: the acknowledgement ledger of one `Connection::poll2`.
 
@@ -218,7 +219,7 @@ theorem settingsRemotePartT_spec (c : Conn) :
     rxS (settingsRemotePartT c).2 = [] ∧ rxP (settingsRemotePartT c).2 = [] ∧ ansP (settingsRemotePartT c).2 = [] ∧
     ((stepOk (settingsRemotePartT c).1.2 = true ∧ ackS (settingsRemotePartT c).2 = owedS c) ∨
      (stepOk (settingsRemotePartT c).1.2 = false ∧ ackS (settingsRemotePartT c).2 = []) ∨
-     (stepOk (settingsRemotePartT c).1.2 = false ∧ (∃ e, (settingsRemotePartT c).1.2 = .err e) ∧
+     (stepOk (settingsRemotePartT c).1.2 = false ∧ (∃ e, (settingsRemotePartT c).1.2 = .err e ∧ IsGoAwayErr e) ∧
         ackS (settingsRemotePartT c).2 = owedS c)) := by
   unfold settingsRemotePartT
   cases hr : c.settings.remote with
@@ -242,7 +243,9 @@ theorem settingsRemotePartT_spec (c : Conn) :
         unfold ackAndApply at ha
         dsimp only at ha
         split at ha <;> simp at ha
-      | err e => right; right; simp [stepOk, ackS, owedS, hr]
+      | err e =>
+        right; right
+        exact ⟨rfl, ⟨e, rfl, ackAndApply_err c1 v e (by rw [ha])⟩, by simp [ackS, owedS, hr]⟩
 
 /-- `Settings::poll_send`: pings untouched; either the SETTINGS ledger balances, or the ACK went out
     and `apply_remote_settings` failed (the step is an error); `Ready(Ok)` leaves `remote` empty -/
@@ -250,7 +253,7 @@ theorem settingsPollSendT_spec (c : Conn) :
     (settingsPollSendT c).1.1.pingPong = c.pingPong ∧
     rxS (settingsPollSendT c).2 = [] ∧ rxP (settingsPollSendT c).2 = [] ∧ ansP (settingsPollSendT c).2 = [] ∧
     (ackS (settingsPollSendT c).2 ++ owedS (settingsPollSendT c).1.1 = owedS c ∨
-      ((∃ e, (settingsPollSendT c).1.2 = .err e) ∧ ackS (settingsPollSendT c).2 = owedS c)) ∧
+      ((∃ e, (settingsPollSendT c).1.2 = .err e ∧ IsGoAwayErr e) ∧ ackS (settingsPollSendT c).2 = owedS c)) ∧
     (stepOk (settingsPollSendT c).1.2 = true → (settingsPollSendT c).1.1.settings.remote = none) := by
   obtain ⟨r1, r2, r3, r4, r5, r6⟩ := settingsRemotePartT_spec c
   unfold settingsPollSendT
@@ -272,17 +275,17 @@ theorem settingsPollSendT_spec (c : Conn) :
   | pending =>
     dsimp only
     refine ⟨r1, r3, r4, r5, Or.inl ?_, fun h => by simp [stepOk] at h⟩
-    rcases r6 with ⟨h, -⟩ | ⟨-, h⟩ | ⟨-, ⟨e, h⟩, -⟩
+    rcases r6 with ⟨h, -⟩ | ⟨-, h⟩ | ⟨-, ⟨e, h, -⟩, -⟩
     · simp [stepOk] at h
     · simp [h, owedS, r2]
     · cases h
   | err e =>
     dsimp only
     refine ⟨r1, r3, r4, r5, ?_, fun h => by simp [stepOk] at h⟩
-    rcases r6 with ⟨h, -⟩ | ⟨-, h⟩ | ⟨-, -, h⟩
+    rcases r6 with ⟨h, -⟩ | ⟨-, h⟩ | ⟨-, ⟨e', he', hk⟩, h⟩
     · simp [stepOk] at h
     · left; simp [h, owedS, r2]
-    · right; exact ⟨⟨e, rfl⟩, h⟩
+    · right; cases he'; exact ⟨⟨e, rfl, hk⟩, h⟩
 
 -- ===================================================================== Connection::poll_ready
 
@@ -290,7 +293,7 @@ theorem settingsPollSendT_spec (c : Conn) :
     `apply_remote_settings`, the ACK being out), and `Ready(Ok)` means: nothing is owed any more -/
 theorem pollReadyT_spec (c : Conn) :
     (Led c (pollReadyT c).2 (pollReadyT c).1.1 ∨
-      ((∃ e, (pollReadyT c).1.2 = .err e) ∧ LedF c (pollReadyT c).2 (pollReadyT c).1.1)) ∧
+      ((∃ e, (pollReadyT c).1.2 = .err e ∧ IsGoAwayErr e) ∧ LedF c (pollReadyT c).2 (pollReadyT c).1.1)) ∧
     (stepOk (pollReadyT c).1.2 = true →
       (pollReadyT c).1.1.settings.remote = none ∧ (pollReadyT c).1.1.pingPong.pendingPong = none) := by
   obtain ⟨p1, p2, p3⟩ := sendPendingPongT_spec c
@@ -318,7 +321,7 @@ theorem pollReadyT_spec (c : Conn) :
       rcases hS : settingsPollSendT c2 with ⟨⟨c3, st3⟩, e2⟩
       rw [hS] at s1 s2 s3 s4 s5 s6
       dsimp only at s1 s2 s3 s4 s5 s6
-      have hstep : (Led c2 e2 c3 ∨ ((∃ e, st3 = .err e) ∧ LedF c2 e2 c3)) := by
+      have hstep : (Led c2 e2 c3 ∨ ((∃ e, st3 = .err e ∧ IsGoAwayErr e) ∧ LedF c2 e2 c3)) := by
         rcases s5 with h | ⟨he, h⟩
         · left; exact ⟨by simpa [s2] using h, by simp [s4, s3, owedP, s1]⟩
         · right; exact ⟨he, ⟨by simpa [s2] using h, by simp [s4, s3, owedP, s1]⟩⟩
@@ -326,7 +329,7 @@ theorem pollReadyT_spec (c : Conn) :
       | pending =>
         dsimp only
         refine ⟨?_, fun h => by simp [stepOk] at h⟩
-        rcases hstep with h | ⟨⟨e, he⟩, h⟩
+        rcases hstep with h | ⟨⟨e, he, -⟩, h⟩
         · exact Or.inl (led2.trans h)
         · cases he
       | err e =>
@@ -334,11 +337,11 @@ theorem pollReadyT_spec (c : Conn) :
         refine ⟨?_, fun h => by simp [stepOk] at h⟩
         rcases hstep with h | ⟨he, h⟩
         · exact Or.inl (led2.trans h)
-        · exact Or.inr ⟨⟨e, rfl⟩, led2.transF h⟩
+        · exact Or.inr ⟨he, led2.transF h⟩
       | ok =>
         dsimp only
         have led3 : Led c2 e2 c3 := by
-          rcases hstep with h | ⟨⟨e, he⟩, h⟩
+          rcases hstep with h | ⟨⟨e, he, -⟩, h⟩
           · exact h
           · cases he
         have hr3 := s6 rfl
@@ -430,14 +433,13 @@ theorem recvFrame_nonsettings (c : Conn) (frame : Option Frame.Frame)
 
 -- ===================================================================== the loop of poll2
 
-def resErr : PollRes → Bool
-  | .ready (.error _) => true
-  | _ => false
+/-- the poll ended with a connection error (`Error::GoAway`) -/
+def resGoAwayErr (r : PollRes) : Prop := ∃ e, r = .ready (.error e) ∧ IsGoAwayErr e
 
 /-- what a run from `c` satisfies: the ledgers balance, or the run ended with the error of a failed
     `apply_remote_settings` (the ACK being out) -/
 def RunOK (c : Conn) (x : (Conn × PollRes) × List Ev) : Prop :=
-  Led c x.2 x.1.1 ∨ (resErr x.1.2 = true ∧ LedF c x.2 x.1.1)
+  Led c x.2 x.1.1 ∨ (resGoAwayErr x.1.2 ∧ LedF c x.2 x.1.1)
 
 theorem RunOK.pre {c c1 : Conn} {e1 : List Ev} {x : (Conn × PollRes) × List Ev}
     (h1 : Led c e1 c1) (h2 : RunOK c1 x) : RunOK c (x.1, e1 ++ x.2) := by
@@ -510,16 +512,16 @@ theorem poll2GoOnT_spec (kT : Conn → (Conn × PollRes) × List Ev) (hk : ∀ c
   dsimp only at p1 p2
   cases st1 with
   | pending =>
-    rcases p1 with h | ⟨⟨e, he⟩, -⟩
+    rcases p1 with h | ⟨⟨e, he, -⟩, -⟩
     · exact Or.inl h
     · cases he
   | err e =>
-    rcases p1 with h | ⟨-, h⟩
+    rcases p1 with h | ⟨⟨e', he, hk⟩, h⟩
     · exact Or.inl h
-    · exact Or.inr ⟨rfl, h⟩
+    · cases he; exact Or.inr ⟨⟨e, rfl, hk⟩, h⟩
   | ok =>
     have led : Led c e1 c1 := by
-      rcases p1 with h | ⟨⟨e, he⟩, -⟩
+      rcases p1 with h | ⟨⟨e, he, -⟩, -⟩
       · exact h
       · cases he
     obtain ⟨hr, hp⟩ := p2 rfl
